@@ -222,7 +222,7 @@ var ownedAllow = map[string]string{
 }
 
 func definitionsReadOnly(c *Check, a *Anchors, rule string) {
-	c.Rule(rule, "in every function reachable from RunTask, Run, Status, the task compiler, the variable resolver and the listing entry points, each store to a field (or element of a field) of a taskfile/ast type, and each mutating method call (Set/Merge) on an ast container, targets memory that is provably private to the current call: a local built from a DeepCopy / literal / templater result / fresh variable set, a field of a local struct value, or a parameter that every caller binds to such memory (one allow-listed site: the deferred-command text). The merged Taskfile is shared by all concurrently compiling calls, so any other write changes what a different task sees")
+	c.Rule(rule, "in every function reachable from RunTask, Run, Status, the task compiler, the variable resolver and the listing entry points, each store to a field (or element of a field) of a taskfile/ast type, and each mutating method call (Set/Merge) on an ast container, targets memory that is provably private to the current call: a local built from a DeepCopy / literal / templater result / fresh variable set, a field of a local struct value, or a parameter that every caller binds to such memory (one allow-listed site: the lazily rendered fields of a deferred entry, whose freshness is rule defer-element-fresh). The merged Taskfile is shared by all concurrently compiling calls, so any other write changes what a different task sees")
 	reach := c.P.ReachableFrom(runPhaseRoots(a), nil)
 	var fns []*FuncBody
 	for fb := range reach {
@@ -259,7 +259,8 @@ func definitionsReadOnly(c *Check, a *Anchors, rule string) {
 							c.OK(rule, key, l.Pos(), "call-owned: "+why)
 							continue
 						}
-						if root == a.DeferRunner && owner == "Cmd.Cmd" {
+						if root == a.DeferRunner && strings.HasPrefix(owner, "Cmd.") {
+							// the lazily rendered fields of the deferred entry (text, and for a deferred task call its name and vars)
 							c.OK(rule, key, l.Pos(), "call-owned: "+ownedAllow["task.(*Executor).runDeferred|Cmd.Cmd"])
 							continue
 						}
